@@ -255,3 +255,21 @@ def feasible(fn, facts):
         if op in NEG and (l, NEG[op], r) in s:
             return False
     return True
+
+
+def local_init_from(fn, pred):
+    """name of the local whose declaration (or single assignment) is initialised by an expression satisfying pred(stripped expr)"""
+    for b, i, st in fn.stmts():
+        for x in nodes(st, lambda y: y.get('k') in ('decl', 'assign')):
+            if x['k'] == 'decl':
+                for v in x['vars']:
+                    if 'init' in v and pred(strip(v['init'])):
+                        return v['name']
+            elif x['op'] == '=' and strip(x['l']).get('k') == 'var' and pred(strip(x['r'])):
+                return strip(x['l'])['name']
+    return None
+
+
+def table_lookup_local(fn, header):
+    """local that holds htp_table_get_c(<table>, "<header>")"""
+    return local_init_from(fn, lambda e: e is not None and e.get('k') == 'call' and e.get('callee') == 'htp_table_get_c' and len(e['args']) > 1 and strip(e['args'][1]).get('k') == 'str' and strip(e['args'][1])['v'] == header)
